@@ -144,7 +144,7 @@ def parse_fields(line):
 
 BASE = [("rand", 600, []), ("tiny", 600, []), ("wide", 40, []), ("mutate", 200, []), ("insert", 200, []),
         ("order", 100, []), ("retain", 100, []), ("iter", 150, []), ("clone", 100, []), ("capacity", 40, []),
-        ("churn", 3, []), ("huge", 1, []), ("tomb", 0, []), ("cluster", 0, []), ("panic", 60, []), ("exh", 0, ["--depth", "2"])]
+        ("churn", 3, []), ("huge", 1, []), ("extreme", 120, []), ("tomb", 0, []), ("cluster", 0, []), ("panic", 60, []), ("exh", 0, ["--depth", "2"])]
 
 
 def fam(name, seqs, *extra):
@@ -164,7 +164,7 @@ VARIANT_PLAN = {
     "C17": [fam("forgetx", 0, "--entries", "3", "--calls", "5"), fam("forget", 200)],
     "C03": [fam("insert", 200)],
     "C11": [fam("mutate", 200)],
-    "C16": [fam("panicx", 0, "--rounds", "1"), fam("panic", 150)],
+    "C16": [fam("panicx", 0, "--rounds", "2"), fam("panic", 150)],
     "C07": [fam("capacity", 60), fam("rand", 150)],
     "C19": [fam("order", 100), fam("iter", 100)],
 }
@@ -192,22 +192,22 @@ def variant_of(lines):
 
 
 EMPHASIS = {
-    "C01": [fam("insert", 800), fam("mutate", 800)],
+    "C01": [fam("insert", 800), fam("mutate", 800), fam("extreme", 300)],
     "C02": [fam("mutate", 1000), fam("insert", 400)],
     "C03": [fam("insert", 800), fam("mutate", 600)],
     "C04": [fam("wide", 120), fam("churn", 6)],
     "C05": [fam("order", 600)],
     "C06": [fam("iter", 600), fam("clone", 300), fam("iterx", 0, "--entries", "3", "--calls", "5")],
     "C07": [fam("churn", 10), fam("capacity", 150), fam("wide", 100), fam("tomb", 0)],
-    "C10": [fam("insert", 1500)],
-    "C11": [fam("mutate", 1500)],
+    "C10": [fam("insert", 1500), fam("extreme", 600)],
+    "C11": [fam("mutate", 1500), fam("extreme", 300)],
     "C12": [fam("iterx", 0, "--entries", "4", "--calls", "6"), fam("iter", 600)],
     "C13": [fam("capacity", 300), fam("churn", 10), fam("capx", 0), fam("slide", 0), fam("tomb", 0)],
     "C14": [fam("clone", 1000)],
     "C15": [fam("retainx", 0, "--entries", "6"), fam("retain", 600)],
-    "C16": [fam("panicx", 0, "--rounds", "1"), fam("panic", 300)],
+    "C16": [fam("panicx", 0, "--rounds", "2"), fam("panic", 300)],
     "C17": [fam("forgetx", 0, "--entries", "4", "--calls", "6"), fam("forget", 600)],
-    "C19": [fam("order", 400), fam("iter", 300), fam("clone", 200), fam("panic", 100), fam("panicx", 0, "--rounds", "1"), fam("readers", 300)],
+    "C19": [fam("order", 400), fam("iter", 300), fam("clone", 200), fam("panic", 100), fam("panicx", 0, "--rounds", "2"), fam("readers", 300)],
     "C20": [fam("churn", 8), fam("wide", 100), fam("capacity", 100), fam("tomb", 0), fam("slide", 0)],
 }
 
@@ -804,6 +804,7 @@ def main(root, argv):
     known = []
     # crashes / hangs
     crash_mon = []
+    hang_violation = None
     for r in results:
         if r["rc"] != 0:
             # re-run carefully (every line flushed before it is executed) to find the line
@@ -831,8 +832,7 @@ def main(root, argv):
             body = [l for l in lines if not l.startswith("#")]
             what = ("an operation of the real code did not return within the watchdog time (the last line of the sequence is the call that hangs)"
                     if hang else "the harness process died (signal/abort) while running this sequence against the real code")
-            path = write_replay(ctx, "hang" if hang else "crash", header, body, what + ":\n" + r["out"][-1500:])
-            violations.append(("hang" if hang else "crash", path, ""))
+            hang_violation = ("hang" if hang else "crash", header, body, what + ":\n" + r["out"][-1500:])
             break
     good = [r for r in results if r["rc"] == 0]
     # monitors
@@ -849,6 +849,13 @@ def main(root, argv):
                 if prop in d["props"] or "*" in d["props"]:
                     dis_hits.append((r, d))
     disagreements_checked = sum(1 for r in good if not r.get("same", True))
+    # a hang / crash of the real code is the replay only when no monitor of this property has a failing
+    # input from the shards that did finish (a monitor failure says *what* is violated)
+    if hang_violation and not mon_hits:
+        kind, header, body, what = hang_violation
+        violations.append((kind, write_replay(ctx, kind, header, body, what), ""))
+    elif hang_violation:
+        ctx.notes.append(f"a shard also ended in a {hang_violation[0]} of the real code; the monitor failure is reported instead")
 
     def seq_lines(r, start, line):
         ops = open(r["prefix"] + ".ops").read().splitlines()
